@@ -1332,6 +1332,7 @@ static void MakeCode_90C141(void) {
     CodeLen   = 0;
     DontPrint = False;
     OpSize    = -1;
+    MinOneIs0 = False;
 
     /* zu ignorierendes */
 
